@@ -743,7 +743,9 @@ func init() {
 			n := rapid.IntRange(1, 8).Draw(t, "npolls")
 			at := 1000
 			for i := 0; i < n; i++ {
-				at += pick(t, "gap", []int{500, 5000, 60000, 600000, 1900000})
+				// (gaps of 0..3 ms: several messages of one peer in flight together; whatever is
+				// stored must be what the last of them said)
+				at += pick(t, "gap", []int{500, 5000, 60000, 600000, 1900000, 0, 1, 3})
 				cfg.Polls = append(cfg.Polls, world.PollKnob{AtMs: at, Request: rapid.Bool().Draw(t, "req"), Version: pick(t, "ver", []uint64{7, 7, 7, 6, 8, 0}), Rate: int64(1000 + i),
 					From: pick(t, "from", []int{0, 0, 2}), Garbage: rapid.IntRange(0, 7).Draw(t, "garbage") == 0})
 			}
@@ -768,7 +770,7 @@ func init() {
 			}
 			if rapid.Bool().Draw(t, "sched") {
 				p.SchedSeed = rapid.Uint64Range(1, 1<<32).Draw(t, "schedseed")
-				p.SchedRate = 100
+				p.SchedRate = pick(t, "schedrate", []int{100, 400, 900})
 			}
 			return p
 		},
